@@ -141,7 +141,7 @@ class Verdicts:
     def witness(self, name):
         self.witnesses[name] = self.witnesses.get(name, 0) + 1
 
-    def check(self, ex, label, formula, assumptions=(), detail=None):
+    def check(self, ex, label, formula, assumptions=(), detail=None, scenario=None):
         """obligation: path condition /\\ assumptions  =>  formula   (decided by z3)"""
         self.obligations += 1
         f = formula if not isinstance(formula, bool) else z3.BoolVal(formula)
@@ -156,8 +156,15 @@ class Verdicts:
             self.inconclusive.append(f"{label}: solver unknown")
             return False
         model = ex.solver.model()
+        sc = None
+        if scenario is not None:
+            try:
+                sc = scenario(model)
+            except Exception as e:  # a scenario that cannot be extracted only disables native replay
+                sc = {"unavailable": f"{type(e).__name__}: {e}"}
         self.failures.append({
             "label": label,
+            "scenario": sc,
             "detail": detail() if callable(detail) else detail,
             "choices": list(ex.choices),
             "trace": [repr(e) for e in ex.trace][:40],
